@@ -19,15 +19,16 @@ type subscriptionEntry struct {
 	request      *requests.Request
 	gateway      *Gateway
 	originalPlan *planner.QueryPlan
-	isClosed     bool
 
-	closeCh        chan struct{}
+	// closeCh is closed (once) by Close to ask Listen to stop
+	closeCh   chan struct{}
+	closeOnce sync.Once
+	// queryerCloseCh is closed by Listen when it is done: the queryer drops the upstream subscription
 	queryerCloseCh chan struct{}
-	respCh         chan *requests.Response
-	executorFn     func(map[string]interface{}) (map[string]interface{}, error)
-	vid            uint64 // verification hook instance id
-
-	sync.Mutex
+	// respCh carries the upstream events; nil means the upstream is done. It is never closed
+	respCh     chan *requests.Response
+	executorFn func(map[string]interface{}) (map[string]interface{}, error)
+	vid        uint64 // verification hook instance id
 }
 
 func (g *Gateway) newSubscriptionEntry(id string, ctx *planner.PlanningContext) (*subscriptionEntry, error) {
@@ -128,34 +129,17 @@ func (se *subscriptionEntry) prepareResponse(resp *requests.Response) *requests.
 	}
 }
 
+// Close asks Listen to stop. It never blocks and is safe to call any number of times,
+// before, while and after Listen runs.
 func (se *subscriptionEntry) Close() {
-	common.VerifPoint(se.vid, "se.close.enter")
-	se.TryLock()
-	isClosed := se.isClosed
-	common.VerifPoint(se.vid, "se.close.read", isClosed)
-	se.Unlock()
-	common.VerifPoint(se.vid, "se.close.send", isClosed)
-	if isClosed {
-		return
-	}
-	se.closeCh <- struct{}{}
-	common.VerifPoint(se.vid, "se.close.sent")
+	se.closeOnce.Do(func() {
+		close(se.closeCh)
+	})
 }
 
 func (se *subscriptionEntry) Listen(conn net.Conn) {
-	defer func() {
-		common.VerifPoint(se.vid, "se.listen.defer.qclose")
-		se.queryerCloseCh <- struct{}{}
-		common.VerifPoint(se.vid, "se.listen.defer.lock")
-		se.Lock()
-		common.VerifPoint(se.vid, "se.listen.defer.locked")
-		defer se.Unlock()
-		close(se.queryerCloseCh)
-		close(se.closeCh)
-		close(se.respCh)
-		se.isClosed = true
-		common.VerifPoint(se.vid, "se.listen.defer.closed")
-	}()
+	// tell the queryer that nobody listens any more
+	defer close(se.queryerCloseCh)
 
 	for {
 		common.VerifPoint(se.vid, "se.listen.select")
